@@ -953,7 +953,95 @@ def exec_rxedit(case):
     return evs, mism, {'cls': cls, 'ts': 'species' if has_ts else 'none', 'cov': cov}
 
 
-EXEC = {'handed': exec_handed, 'bepedit': exec_bepedit, 'rxedit': exec_rxedit, 'clamp_tlc': exec_clamp_tlc, 'clamp_rand': exec_clamp_rand, 'bep': exec_bep,
+def _shared_observe(evs, b, rx, cls, T, stage, what):
+    """One evaluation of a reaction through the shared BEP, judged against the descriptor taken
+    from the reaction's own species-level getters (never through the BEP)."""
+    from pmutt import constants as c
+    kc = 'kcal/mol'
+    desc, slope, icpt = b.descriptor, b.slope, b.intercept
+    D = _call(evs, 'descriptor', _desc_value(rx, desc, T))
+    if D is None:
+        return
+    got = {}
+    for d, rev in (('fwd', False), ('rev', True)):
+        v = _call(evs, 'BEP.get_E_act', lambda: b.get_E_act(units=kc, reaction=rx, rev=rev, T=T))
+        if v is None:
+            continue
+        got[d] = v
+        evs.append({'ev': 'bep', 'desc': desc, 'dir': d, 'units': kc, 'slope': to_dec(slope), 'icpt': to_dec(icpt),
+                    'D': to_dec(D), 'uf': to_dec(c.convert_unit(initial=kc, final=kc)), 'val': to_dec(v),
+                    'stage': stage, 'shared': what})
+    dH = _call(evs, 'get_delta_H', lambda: rx.get_delta_H(units=kc, T=T))
+    dE = _call(evs, 'get_delta_E', lambda: rx.get_delta_E(units=kc, T=T))
+    if None not in (dH, dE) and len(got) == 2:
+        evs.append({'ev': 'bepdiff', 'desc': desc, 'form': kc, 'ef': to_dec(got['fwd']), 'er': to_dec(got['rev']),
+                    'dH': to_dec(dH), 'dE': to_dec(dE), 'stage': stage, 'shared': what})
+    if cls != 'Reaction':
+        # Ea handed out by the kinetic-file classes: max(0, barrier, change); the barrier state is the
+        # species-level witness H_reactants + (slope * D + intercept), not the BEP's own answer
+        for q, kw in (('H', {'T': T}), ('G', {'T': T, 'P': 1.0})):
+            r = _call(evs, 'state', lambda: getattr(rx, 'get_%s_state' % q)(state='reactants', units=kc, **kw))
+            p = _call(evs, 'state', lambda: getattr(rx, 'get_%s_state' % q)(state='products', units=kc, **kw))
+            hr = _call(evs, 'state', lambda: rx.get_H_state(state='reactants', units=kc, T=T))
+            if None in (r, p, hr):
+                continue
+            native_fwd = not desc.startswith('rev_delta')
+            if not native_fwd:
+                continue                              # the forward barrier is only the documented relation here
+            v = _call(evs, 'get_%s_act' % q, lambda: getattr(rx, 'get_%s_act' % q)(units=kc, rev=False, **kw))
+            if v is not None:
+                # ts is computed by the trace spec: H_reactants + slope * D + intercept - T S_reactants
+                evs.append({'ev': 'clamp', 'cls': cls, 'q': q, 'form': kc, 'dir': 'fwd', 'hasTS': True,
+                            'r': to_dec(r), 'p': to_dec(p), 'ts': [0, 0], 'val': to_dec(v),
+                            'tsw': {'hr': to_dec(r if q == 'H' else hr), 'slope': to_dec(slope), 'D': to_dec(D),
+                                    'icpt': to_dec(icpt), 'gr': to_dec(r)},
+                            'stage': stage, 'shared': what})
+
+
+def exec_shared(case):
+    """ONE BEP object serving many reactions: a sequence of reactions created, evaluated and
+    dropped one after another; several live reactions evaluated alternately; one reaction
+    re-evaluated after the energy of one of its species was edited."""
+    import gc
+    rnd = random.Random(case['cseed'])
+    cls, bcls = case['cls'], case['bcls']
+    T = rnd.choice([298.15, rnd.uniform(250., 1200.)])
+    b = L.bep(bcls, 'BEP1', case['slope'], case['icpt'], case['desc'])
+    evs = []
+    cov = []
+    counter = [0]
+
+    def make(j):
+        hr, hp = _rand_state(rnd)
+        sps = [_mk_species('statmech', '%s%d' % (nm, j), h, 0., 0., T, phase='S') for nm, h in (('R', hr), ('P', hp))]
+        if cls == 'SurfaceReaction':
+            L.omkm_phases([], {'terrace': sps}, {'terrace': 2.5e-9})
+        return L.reaction(cls, [sps[0]], [1.], [sps[1]], [1.], [b], [1.]), sps
+    # (a) created, evaluated, dropped
+    for j in range(case['n']):
+        rx, sps = make(j)
+        _shared_observe(evs, b, rx, cls, T, j, 'sequence')
+        counter[0] += 1
+        del rx, sps
+        if j % 3 == 0:
+            gc.collect()
+    cov += ['shared:sequence'] * case['n']
+    # (b) live reactions evaluated alternately
+    live = [make(100 + j) for j in range(3)]
+    for rnd_ in range(2):
+        for j, (rx, sps) in enumerate(live):
+            _shared_observe(evs, b, rx, cls, T, 1000 + rnd_ * 10 + j, 'alternate')
+            cov.append('shared:alternate')
+    # (c) the same reaction after an energy edit of its product
+    rx, sps = live[0]
+    for k in range(2):
+        sps[1].elec_model.potentialenergy += rnd.choice([-0.35, 0.2, 0.5])
+        _shared_observe(evs, b, rx, cls, T, 2000 + k, 'energy_edit')
+        cov.append('shared:energy_edit')
+    return evs, [], {'cls': cls, 'bcls': bcls, 'ts': 'bep', 'cov': cov}
+
+
+EXEC = {'handed': exec_handed, 'shared': exec_shared, 'bepedit': exec_bepedit, 'rxedit': exec_rxedit, 'clamp_tlc': exec_clamp_tlc, 'clamp_rand': exec_clamp_rand, 'bep': exec_bep,
         'site': exec_site, 'a_rand': exec_a_rand}
 
 
@@ -1084,6 +1172,11 @@ def make_cases(ctx, data, rnd):
         cases.append({'kind': 'bepedit', 'cls': cls, 'bcls': bcls, 'desc': d0, 'edits': ed,
                       'slope': rnd.choice([0.0, 1.0, rnd.uniform(0., 1.)]), 'icpt': rnd.uniform(0., 60.),
                       'unit': eunits(1)[0], 'cseed': seed()})
+    for i in range(ctx.pick(24, 240)):
+        cls, bcls = BEP_COMBOS[(i + ctx.seed) % 6]
+        cases.append({'kind': 'shared', 'cls': cls, 'bcls': bcls, 'desc': L.DESCRIPTORS[(i // 3) % 8],
+                      'slope': rnd.uniform(0., 1.), 'icpt': rnd.uniform(0., 60.),
+                      'n': (10, 25, 60, 14)[i % 4], 'cseed': seed()})
     rprogs = [
         ({'is_adsorption': False}, [['Ea', 0.0], ['A', 1.0e13], ['beta', 0.0], ['Ea', None]]),
         ({'is_adsorption': True}, [['sticking_coeff', 0.0], ['beta', 0.5], ['use_motz_wise', True], ['Ea', 7.5]]),
@@ -1135,6 +1228,7 @@ def required_coverage():
              for r in ('entropy', 'q', 'nots', 'noentropy')]
     need += ['edit:descriptor:' + k for k in ('cross', 'within', 'nondelta')]
     need += ['edit:slope', 'edit:intercept', 'edit:reaction']
+    need += ['shared:sequence', 'shared:alternate', 'shared:energy_edit']
     need += ['rxedit:SurfaceReaction:' + a for a in ('is_adsorption', 'A', 'beta', 'Ea', 'sticking_coeff', 'use_motz_wise')]
     need += ['rxedit:ChemkinReaction:' + a for a in ('is_adsorption', 'beta', 'sticking_coeff')]
     need += ['handed:ea:' + x for x in ('given', 'get_H_act', 'get_G_act')]
@@ -1158,6 +1252,8 @@ def _signature(case, tags):
         return ['clamp_rand', case['cls'], case['regH'], case['regG'], case['cseed']]
     if case['kind'] == 'bep':
         return ['bep', case['cls'], case['bcls'], case['desc'], case['slope'], case['icpt'], case['cseed']]
+    if case['kind'] == 'shared':
+        return ['shared', case['cls'], case['bcls'], case['desc'], case['n'], case['cseed']]
     if case['kind'] in ('bepedit', 'rxedit'):
         return [case['kind'], case['cls'], case.get('bcls'), case.get('desc'), case.get('init'), case['edits'], case['cseed']]
     if case['kind'] == 'handed':
@@ -1186,7 +1282,7 @@ def _tags_of_event(case, ctags, e):
         t['handed'] = True
     if e.get('nostick'):
         t['nostick'] = True
-    for k in ('q', 'dir', 'desc', 'route', 'op', 'fn', 'attr', 'what', 'stage'):
+    for k in ('q', 'dir', 'desc', 'route', 'op', 'fn', 'attr', 'what', 'stage', 'shared'):
         if k in e:
             t[k] = e[k]
     if 'form' in e:
@@ -1209,7 +1305,7 @@ def run(ctx):
     else:
         # the four TLC runs are independent: run them side by side
         import concurrent.futures as cf
-        with cf.ThreadPoolExecutor(max_workers=6) as ex:
+        with cf.ThreadPoolExecutor(max_workers=8) as ex:
             f_main = ex.submit(ctx.model, 'MC_Kinetics', 'MC_Kinetics', 6)
             f_var = [(cfg, inv, ex.submit(ctx.model, 'MC_Kinetics', cfg, 3, False))
                      for cfg, inv in (('MC_Kinetics_droprev', 'ClampRefines'),
@@ -1217,8 +1313,12 @@ def run(ctx):
             f_edit = ex.submit(ctx.model, 'MC_Kinetics', 'MC_Kinetics_edit', 3)
             f_var.append(('MC_Kinetics_cachedflag', 'EditedEqualsFresh',
                           ex.submit(ctx.model, 'MC_Kinetics', 'MC_Kinetics_cachedflag', 2, False)))
+            f_memo = ex.submit(ctx.model, 'KineticsMemo', 'MC_KineticsMemo', 1)
+            f_var.append(('MC_KineticsMemo_idmemo', 'DescriptorIsCurrent',
+                          ex.submit(ctx.model, 'KineticsMemo', 'MC_KineticsMemo_idmemo', 1, False)))
             f_cases = ex.submit(core.tlc_cases, 'MC_KineticsCases', 'MC_KineticsCases')
             f_edit.result()
+            f_memo.result()
             f_main.result()
             for cfg, inv, f in f_var:
                 r = f.result()
@@ -1268,6 +1368,8 @@ def run(ctx):
             per_ev[key] = per_ev.get(key, 0) + 1
     ctx.coverage['events'] = per_ev
     ctx.coverage['input_classes'] = dict(sorted(cov.items()))
+    ctx.coverage['reactions_evaluated_through_one_shared_BEP'] = cov.get('shared:sequence', 0) + cov.get('shared:alternate', 0)
+    ctx.coverage['re_evaluated_after_an_energy_edit'] = cov.get('shared:energy_edit', 0)
     if ctx.replay_case is None:
         for need in ('clamp', 'bep', 'bepdiff', 'bepvia', 'bepuh', 'A:entropy', 'A:nots', 'A:q', 'fresh'):
             if per_ev.get(need, 0) == 0:
